@@ -355,6 +355,38 @@ theorem transformed_contract' {R' H' : Type} (tOf : H → α) (tOf' : H' → α)
 
 end
 
+/-! ## the Boolean contract on observations -/
+
+section
+variable [Zero α]
+
+/-- If a collider satisfies the contract for a ray, the Boolean predicate the driver evaluates on the
+observation (counts, whether there is a first collision, its parameter, the callback parameters) is true —
+so a `false` on an observation of the real code is a violation of the contract. -/
+theorem obsOk_of_contract (tOf : H → α) (c : Collider R H) (r : R) (hc : Contract tOf c r) (dflt : α) :
+    obsOk (c.ray r false).1 (c.ray r true).1 (c.first r).isSome
+      (match c.first r with | some h => tOf h | none => dflt) ((c.ray r true).2.map tOf) = true := by
+  unfold obsOk
+  simp only [Bool.and_eq_true, beq_iff_eq, List.length_map, List.all_eq_true, decide_eq_true_eq,
+    Bool.or_eq_true, Bool.not_eq_true', List.any_eq_true, List.mem_map, forall_exists_index, and_imp,
+    forall_apply_eq_imp_iff₂]
+  refine ⟨⟨⟨⟨hc.count_eq_calls, hc.nil_count⟩, hc.nonneg⟩, ?_⟩, ?_⟩
+  · cases hf : (c.first r).isSome
+    · have : ¬ (c.ray r true).1 ≠ 0 := fun h => by
+        have := hc.first_iff.2 h; rw [hf] at this; cases this
+      simp only [ne_eq, not_not] at this
+      simp [this]
+    · have := hc.first_iff.1 hf
+      simp [this]
+  · cases hf : c.first r with
+    | none => left; rfl
+    | some h =>
+      right
+      obtain ⟨⟨h', hm, ht⟩, hle⟩ := hc.first_min h hf
+      exact ⟨⟨tOf h', ⟨h', hm, rfl⟩, le_of_eq ht⟩, hle⟩
+
+end
+
 /-! ## sorting by parameter (`Capsule.RayCollisions`) -/
 
 theorem insertByT_perm (tOf : H → α) (h : H) : ∀ l : List H, (insertByT tOf h l).Perm (h :: l)
